@@ -128,6 +128,9 @@ func c06(p *core.Prog, r *core.Report) {
 	c06Stamping(p, r)
 	c06RawHeader(p, r)
 	c06InitResID(p, r)
+	// what goes into a frame comes from somewhere: every field of the message,
+	// frame and relay-item structs that is read is also assigned
+	readFieldsAreAssigned(p, r, "C06-R3", nil)
 	r.Rule("C06-R6", "E6 loops", 15, "decode loops terminate on truncated input (shared with C03)")
 	r.Alias("C03-R4", "C06-R6")
 	c03Loops(p, r)
@@ -815,6 +818,7 @@ func c06Encode(p *core.Prog, r *core.Report) {
 	}
 	// R5d: the code points written verbatim into frames are the specification's
 	wireCodes(p, r, "C06-R5", "frame", "checksum", "error")
+	checksumSizes(p, r, "C06-R5")
 	// R5c: relay offset constants equal the specified sums
 	var names []string
 	for n := range spec.Offsets {
